@@ -275,18 +275,19 @@ func init() {
 				{Pkg: kv, Func: "VH_C13_update", Args: []int64{n}, Unwind: 32},
 				{Pkg: kv, Func: "VH_C13_versions", Unwind: 32},
 				{Pkg: kv, Func: "VH_C13_glob", Args: []int64{n}, Unwind: 64},
+				{Pkg: kv, Func: "VH_C13_snapshot", Args: []int64{n}, Unwind: 64},
 				{Pkg: kv, Func: "VH_C13_vacuity", Expect: "violated"},
 			}
 		},
-		Covers: map[string][]string{"VH_C13_update": {"end", "set-ok", "set-mismatch", "delete-ok", "delete-mismatch"}, "VH_C13_versions": {"end", "same-key"}, "VH_C13_glob": {"end"}},
+		Covers: map[string][]string{"VH_C13_update": {"end", "set-ok", "set-mismatch", "delete-ok", "delete-mismatch"}, "VH_C13_versions": {"end", "same-key"}, "VH_C13_glob": {"end"}, "VH_C13_snapshot": {"end", "raced", "stale-key"}},
 		Bounds: map[string]string{
-			"quick":    "store of 0..2 pairs (distinct arbitrary 1-byte keys, arbitrary values, arbitrary earlier versions), one update of each op with arbitrary key/value/version (stale, current, zero, future) at an arbitrary 64-bit log index; glob over 2 keys drawn from the 4 key shapes the callers use with an arbitrary path element",
+			"quick":    "store of 0..2 pairs (distinct arbitrary 1-byte keys, arbitrary values, arbitrary earlier versions), one update of each op with arbitrary key/value/version (stale, current, zero, future) at an arbitrary 64-bit log index; glob over 2 keys drawn from the 4 key shapes the callers use with an arbitrary path element; snapshot: source store of 0..2 arbitrary pairs, optionally a set and a delete applied between prepare and save, receiver with 0..2 other arbitrary pairs (same or different keys), install through the real PrepareSnapshot/SaveSnapshot/RecoverFromSnapshot and MapStore.MarshalJSON/UnmarshalJSON",
 			"thorough": "3 pairs / 3 keys",
 		},
-		Outside: "snapshot/restore equality of the store (encoding/json of a map is reflection code: not encodable; the JSON model would make it vacuous) - declined; multi-byte path elements; List/ListDir (no caller)",
+		Outside: "the JSON text itself (escaping, number formats, key order: encoding/json is reflection code and is modelled, M4); snapshots written in several pieces; multi-byte path elements; List/ListDir (no caller)",
 		Assumptions: []string{
 			"M2: proposals are applied by the real LFSM.Update at consecutive, increasing log indices",
-			"M4: json.Marshal/Unmarshal of kv.Update and kv.Pair round-trip field by field",
+			"M4: json.Marshal/Unmarshal of kv.Update and kv.Pair round-trip field by field; a json.Marshaler's / Unmarshaler's own method is called with the document; unmarshalling into a map allocates only when the map is nil and otherwise adds to / overwrites its entries (encoding/json's documented behaviour); json.Decoder over a *bytes.Reader consumes one whole document",
 		},
 	}
 	props["C15"] = &Property{
